@@ -29,6 +29,9 @@ def run(ctx):
     ctx.trust('np.digitize classes as in C10; ndarray.reshape is C-ordered (last axis fastest); coo_matrix sums '
               'duplicates; a[1:-1] drops the first and last index')
     rule_fold(ctx)
+    from . import c19
+    c19.rule_shape_classes(ctx, 'C11.R4', names=('ensure_2d',))
+    c19.rule_layout_only(ctx, 'C11.R4', names=('ensure_2d',))
     l1.rule_lib_attrs(ctx, 'L1', [HOLO], 'holospectrum')
 
 
@@ -60,6 +63,11 @@ def rule_fold(ctx):
                 ctx.undecided('C11.R1', fi, c, 'result is not a trimmed array: %s' % show(exits[0].value)[:80])
                 continue
             body, trim = pe
+            # a division of the reduced array by a count (mean written as sum / n), outside or inside the unfold step
+            divisors = []
+            while body[0] == 'bin' and body[1] == '/':
+                divisors.append(body[3])
+                body = body[2]
             if not (body[0] == 'meth' and body[1] == 'reshape'):
                 ctx.undecided('C11.R1', fi, c, 'no reshape (unfold) step found')
                 continue
@@ -67,10 +75,27 @@ def rule_fold(ctx):
             if len(dims) == 1 and dims[0][0] == 'tuple':
                 dims = list(dims[0][1])
             src = body[2]
+            while src[0] == 'bin' and src[1] == '/':
+                divisors.append(src[3])
+                src = src[2]
             red = None
             if src[0] == 'meth' and src[1] in ('sum', 'mean', 'toarray', 'todense'):
                 red = (src[1], dict(src[4]).get('axis', src[3][0] if src[3] else None))
                 src = src[2]
+            while src[0] == 'bin' and src[1] == '/':
+                divisors.append(src[3])
+                src = src[2]
+            if divisors:
+                # sum / (number of time samples) is the mean; any other count is not
+                counts = [_count_of(d) for d in divisors]
+                if red is not None and red[0] == 'sum' and counts == ['T']:
+                    red = ('mean', red[1])
+                else:
+                    ctx.violation('C11.R2', fi, 'mode=%s: squash_time=%r reduction' % (mode, squash),
+                                  'the time-collapsed output is divided by %s, which is %s, not the number of time '
+                                  'samples of the full output' % (' and '.join(show(d)[:50] for d in divisors),
+                                                                  ' / '.join(str(x) for x in counts)))
+                    red = ('invalid', None)
             dec = _decode_coo(src)
             if dec is None and src[0] == 'setitem' and src[1][0] == 'call' and src[1][1] in ('numpy.zeros',
                                                                                             'numpy.zeros_like'):
@@ -208,6 +233,27 @@ def rule_fold(ctx):
             ctx.passed('C11.R3', fi, cc)
         else:
             ctx.violation('C11.R3', fi, cc, 'holospectrum no longer performs this input check')
+
+
+def _count_of(d):
+    """What a divisor `<array>.shape[0]` counts: 'T' (time samples of the sparse accumulation / of an input),
+    1 (rows left after a sum over axis 0), 'bins' (first dimension after the unfold), or '?'."""
+    if not (d[0] == 'sub' and d[1][0] == 'attr' and d[1][2] == 'shape' and d[2] == C(0)):
+        return '?'
+    x = d[1][1]
+    if x[0] == 's':
+        return 'T'
+    if x[0] == 'call' and x[1] in ('emd.support.ensure_2d',):
+        return 'T'
+    if _decode_coo(x) is not None:
+        return 'T'
+    if x[0] == 'sub' and x[1][0] == 'call' and x[1][1] == 'emd.support.ensure_2d':
+        return 'T'
+    if x[0] == 'meth' and x[1] in ('sum', 'mean') and (dict(x[4]).get('axis') == C(0) or x[3] == (C(0),)):
+        return 1
+    if x[0] == 'meth' and x[1] == 'reshape':
+        return 'bins'
+    return '?'
 
 
 def _is_time_dim(d):
